@@ -4,7 +4,7 @@
    regenerates from util/pcqueue.hh.  P producers, C consumers, capacity k, item lists and schedules are all
    universally quantified; `reachable k items counts s` = some schedule leads from the constructor's state to s. *)
 From Coq Require Import List Arith.
-From Kenlm Require Import C17.PCQueueOps Gen.PCQueueProg C17.PCQueueModel C17.PCQueueProofs C17.PoolModel C17.PoolProofs.
+From Kenlm Require Import C17.PCQueueOps Gen.PCQueueProg C17.PCQueueModel C17.PCQueueProofs C17.PoolModel C17.PoolProofs C17.ChainModel C17.ChainProofs.
 Import ListNotations.
 
 (* The source still performs exactly the expected synchronisation operations, in the expected order, on the
@@ -89,3 +89,42 @@ Proof. exact pool_no_deadlock. Qed.
 
 Theorem C17_thread_pool_progress : forall cap s t s', pool_step cap s t = Some s' -> pool_measure s' < pool_measure s.
 Proof. exact pool_progress. Qed.
+
+(* ---- util::stream::Chain over the atomic bounded FIFO (C17/ChainModel.v): a ring of queues of capacity b =
+   block_count, a source writing `payloads` block by block and ending with Link::Poison, one Link-loop worker per
+   stage function in `fs` (the last one recycles into queue 0), Chain::Wait joining the workers and draining queue 0.
+   Any b >= 1, any non-empty list of stage functions, any payloads, any schedule. ---- *)
+
+(* Kahn determinism and production order: at every moment every worker has received a prefix of one fixed stream:
+   the source's blocks in production order followed by the poison, mapped through the functions of the workers before it *)
+Theorem C17_chain_kahn : forall b payloads fs, 1 <= b -> fs <> [] ->
+  forall c, chain_reachable b payloads fs c -> forall pre s post, segs c = pre ++ s :: post ->
+  sseen s = firstn (length (sseen s)) (stream_into payloads (firstn (length pre) fs)) /\ map sf (segs c) = fs.
+Proof. exact chain_kahn. Qed.
+
+(* total content is preserved: b blocks in the queues and in the workers' hands while the workers run *)
+Theorem C17_chain_conservation : forall b payloads fs, 1 <= b -> fs <> [] ->
+  forall c, chain_reachable b payloads fs c -> mainp c = MJoin ->
+  length (q0 c) + src_hold c + seg_items (segs c) = b.
+Proof. exact chain_conservation. Qed.
+
+(* when Chain::Wait has returned, every worker has received its whole stream: every block, in order, then the poison;
+   Wait never aborts ("Chain ending without poison") *)
+Theorem C17_chain : forall b payloads fs, 1 <= b -> fs <> [] ->
+  forall c, chain_reachable b payloads fs c -> mainp c = MDone -> forall pre s post, segs c = pre ++ s :: post ->
+  sseen s = stream_into payloads (firstn (length pre) fs) /\ sphs c = SDone /\ srest c = [].
+Proof. exact chain_finished. Qed.
+
+Theorem C17_chain_no_abort : forall b payloads fs, 1 <= b -> fs <> [] ->
+  forall c, chain_reachable b payloads fs c -> mainp c <> MAbort.
+Proof. exact chain_no_abort. Qed.
+
+(* waiting on the chain returns: no deadlock, and every schedule is finite *)
+Theorem C17_chain_no_deadlock : forall b payloads fs, 1 <= b -> fs <> [] ->
+  forall c, chain_reachable b payloads fs c -> mainp c <> MDone -> exists t c', chain_step b c t = Some c'.
+Proof. exact chain_no_deadlock. Qed.
+
+Theorem C17_chain_terminates : forall b payloads fs, 1 <= b -> fs <> [] ->
+  forall sched c, chain_run b sched (chain_init b payloads fs) = Some c ->
+  length sched + chain_measure b payloads c <= chain_measure b payloads (chain_init b payloads fs).
+Proof. exact chain_schedules_bounded. Qed.
